@@ -12,8 +12,8 @@ pub const MCAP: usize = 8;
 pub static mut ROTATION: usize = 0;
 /// Real DashMap: the guard yielded by `iter_mut` holds the WRITE lock of its shard while the loop
 /// body runs, so a concurrent `get` of that key blocks until the body is done.  The sequentialised
-/// C04 probe runs inside such a body: the model remembers which bucket is locked (address of the
-/// bucket, 0 = none) and a `get` that hits it reports "would block" instead of an observation.
+/// C04 probe runs inside such a body: the model remembers which bucket is locked (index + 1, 0 = none;
+/// only the key index is ever iterated mutably) and a `get` that hits it reports "would block" instead of an observation.
 pub static mut LOCKED_BUCKET: usize = 0;
 pub static mut WOULD_BLOCK: bool = false;
 
@@ -183,7 +183,9 @@ impl<'a, K, V> Iterator for IterMut<'a, K, V> {
             self.i += 1;
             if let Some(e) = &mut v.s[j] {
                 let p = e as *mut (K, V);
-                unsafe { LOCKED_BUCKET = p as usize };
+                // bucket index + 1 (an integer, not an address: a pointer-to-integer comparison is
+                // not constant-folded by CBMC and would make every later `get` a symbolic branch)
+                unsafe { LOCKED_BUCKET = j + 1 };
                 return Some(RefMutMulti { p, _m: PhantomData });
             }
         }
@@ -255,7 +257,7 @@ impl<K: PartialEq, V> DashMap<K, V> {
         if idx < MCAP {
             let v = unsafe { &*self.items.get() };
             let p = v.s[idx].as_ref().unwrap() as *const (K, V);
-            if unsafe { LOCKED_BUCKET } == p as usize {
+            if unsafe { LOCKED_BUCKET } == idx + 1 {
                 // the real call would block here until the iter_mut guard is released
                 unsafe { WOULD_BLOCK = true };
                 return None;
